@@ -574,6 +574,31 @@ pub fn run(ctx: &mut Ctx) {
         ctx.bounds.insert("history_length_completed".into(), json!(len));
         level = next;
     }
+    // long periodic histories: every event and every ordered pair of events repeated up to length 40
+    // (caches and counters that only misbehave after many notifications)
+    let mut periodic: Vec<Vec<Event>> = vec![];
+    for a in &evs {
+        periodic.push(vec![a.clone(); 40]);
+        for b in &evs {
+            if a != b {
+                periodic.push((0..40).map(|i| if i % 2 == 0 { a.clone() } else { b.clone() }).collect());
+            }
+        }
+    }
+    let fails: Vec<(Vec<Event>, Vec<(String, String)>)> = periodic
+        .par_iter()
+        .map(|h| {
+            let (r, _) = run_history(h, &orders[0], &oracle, false, 0);
+            (h.clone(), r.failures)
+        })
+        .collect();
+    for (h, f) in fails {
+        hist_count += 1;
+        for (k, w) in f {
+            ctx.fail(&format!("periodic/{}", k), &w, json!({"mode":"history","order":order_name(&orders[0]),"history": h.iter().map(|x| x.name()).collect::<Vec<_>>()}));
+        }
+    }
+    ctx.bounds.insert("periodic_histories".into(), json!(format!("{} histories of length 40 (period 1 and 2)", periodic.len())));
     ctx.evaluations = transitions + hist_count;
     ctx.extra.insert("histories_without_dedup".into(), json!(hist_count));
 
